@@ -267,13 +267,23 @@ def _group(args):
                 before = (s.listing(coll), dir_listing(s.root, coll) if tree else None, s.audit_tag(coll))
                 r1 = s.req("PUT", s.url(coll, name), {"Content-Type": ct}, body)
                 st1 = dav.effective_status(r1)
+                if st1 not in (200, 201, 204):
+                    # a client that retries the refused upload unchanged must be refused again
+                    r1b = s.req("PUT", s.url(coll, name), {"Content-Type": ct}, body)
+                    if dav.effective_status(r1b) in (200, 201, 204):
+                        st1 = dav.effective_status(r1b)
+                        label = label + "-on-retry"
                 after = (s.listing(coll), dir_listing(s.root, coll) if tree else None, s.audit_tag(coll))
-                cls = label.rstrip("0123456789abcdef").rstrip("-") if "control-char" in label else label.rstrip("0123456789").rstrip("-")
+                retry = label.endswith("-on-retry")
+                label0 = label[:-len("-on-retry")] if retry else label
+                cls = label0.rstrip("0123456789abcdef").rstrip("-") if "control-char" in label0 else label0.rstrip("0123456789").rstrip("-")
                 if "control-char-in-" in label:
                     cls = "control-char-in-" + label.split("control-char-in-")[1].rsplit("-position-", 1)[0] + "-not-last" if not label.rsplit("-position-", 1)[1].startswith(str(label.count("@") or 9)) else cls
                     cls = "control-char-in-multi-component-object"
                 elif "control-char" in cls:
                     cls = cls.split("-char")[0] + "-char"
+                if retry:
+                    cls += ":accepted-when-retried"
                 stats["outcomes"].add(("invalid", typ, cls, st1))
                 if st1 in (200, 201, 204):
                     g = s.req("GET", s.url(coll, name))
